@@ -51,6 +51,7 @@ func (wg *WaitGroup) Add(num int) {
 
 	if wg.counter == 0 {
 		wg.cond.Broadcast()
+		verifAt(context.Background(), "broadcast", wg.cond, "wg")
 	}
 }
 
@@ -131,7 +132,13 @@ func (wg *WaitGroup) Wait(ctx context.Context) {
 	// need this to wake up any waiters in the case that the
 	// context has been canceled, to avoid having many
 	// theads/waiters blocking.
-	go func() { <-ctx.Done(); wg.cond.Broadcast() }()
+	verifAt(ctx, "helper.spawn", wg.cond, "wg")
+	go func() {
+		<-ctx.Done()
+		verifAt(ctx, "helper.gate", wg.cond)
+		wg.cond.Broadcast()
+		verifAt(ctx, "helper.done", wg.cond)
+	}()
 
 	for {
 		select {
@@ -140,7 +147,9 @@ func (wg *WaitGroup) Wait(ctx context.Context) {
 		default:
 			// block until the context is canceled or we
 			// are signaled.
+			verifAt(ctx, "prepark", wg.cond, "wg")
 			wg.cond.Wait()
+			verifAt(ctx, "woken", wg.cond, &wg.mu)
 
 			if wg.counter == 0 {
 				return
